@@ -54,7 +54,10 @@ class Datagroup:
         if self.keys() != other.keys():
             return False
         for key, value in self.items():
-            if all(value != other[key]):
+            equal = value == other[key]
+            # Vectors compare component-wise: all components must be equal
+            components = getattr(equal, "_xyz", {"": equal}).values()
+            if not all(np.all(c.values) for c in components):
                 return False
         return True
 
